@@ -37,17 +37,19 @@ type CK struct {
 func (CK) TableName() string { return "cks" }
 
 type Op struct {
-	Op   string `json:"op"`
-	ID   int64  `json:"id"`
-	A    int64  `json:"a"`
-	B    int64  `json:"b"`
-	Rule string `json:"rule"`
-	CA   int64  `json:"ca"`
-	Attr int64  `json:"attr"`
-	Asg  int64  `json:"asg"`
-	K1   int64  `json:"k1"`
-	K2   int64  `json:"k2"`
-	U    int64  `json:"u"`
+	Op    string `json:"op"`
+	ID    int64  `json:"id"`
+	A     int64  `json:"a"`
+	B     int64  `json:"b"`
+	Rule  string `json:"rule"`
+	CA    int64  `json:"ca"`
+	Attr  int64  `json:"attr"`
+	AttrA int64  `json:"attra"` // Attrs also names column a (the column the condition constrains); 0 = not
+	Omit  bool   `json:"omit"`  // save: Omit("B") precedes Save
+	Asg   int64  `json:"asg"`
+	K1    int64  `json:"k1"`
+	K2    int64  `json:"k2"`
+	U     int64  `json:"u"`
 	// rendering attributes (no meaning in the reference)
 	Sess  []int  `json:"sess"`  // positions (0..) in the chain after which a clone call is inserted
 	How   string `json:"how"`   // session | withctx
@@ -83,7 +85,7 @@ func (e *env) seed() error {
 }
 
 func (e *env) table() ([]hx.M, error) {
-	rows, err := e.sql.Query("SELECT id,a,b,deleted_at IS NOT NULL FROM cvs ORDER BY id")
+	rows, err := e.sql.Query("SELECT id,a,COALESCE(b,0),deleted_at IS NOT NULL FROM cvs ORDER BY id")
 	if err != nil {
 		return nil, err
 	}
@@ -133,6 +135,9 @@ func (e *env) do(o Op) (ret CV, err error) {
 	switch o.Op {
 	case "save":
 		v := CV{ID: o.ID, A: o.A, B: o.B}
+		if o.Omit {
+			steps = append(steps, func(tx *gorm.DB) *gorm.DB { return tx.Omit("B") })
+		}
 		fin = func(tx *gorm.DB) *gorm.DB { r := tx.Save(&v); ret = v; return r }
 	case "savec":
 		v := CK{K1: o.K1, K2: o.K2, A: o.A, B: o.B, U: 10*o.K1 + o.K2}
@@ -175,14 +180,21 @@ func (e *env) do(o Op) (ret CV, err error) {
 		default:
 			steps = append(steps, func(tx *gorm.DB) *gorm.DB { return tx.Where(CV{A: o.CA}) })
 		}
-		if o.Attr != 0 {
-			switch form(o.Forms, 1) {
-			case 'm':
-				steps = append(steps, func(tx *gorm.DB) *gorm.DB { return tx.Attrs(map[string]interface{}{"b": o.Attr}) })
-			case 'k':
+		if o.Attr != 0 || o.AttrA != 0 {
+			am := map[string]interface{}{}
+			if o.Attr != 0 {
+				am["b"] = o.Attr
+			}
+			if o.AttrA != 0 {
+				am["a"] = o.AttrA
+			}
+			switch f := form(o.Forms, 1); {
+			case f == 'm' || (f == 'k' && o.AttrA != 0):
+				steps = append(steps, func(tx *gorm.DB) *gorm.DB { return tx.Attrs(am) })
+			case f == 'k':
 				steps = append(steps, func(tx *gorm.DB) *gorm.DB { return tx.Attrs("b", o.Attr) })
 			default:
-				steps = append(steps, func(tx *gorm.DB) *gorm.DB { return tx.Attrs(CV{B: o.Attr}) })
+				steps = append(steps, func(tx *gorm.DB) *gorm.DB { return tx.Attrs(CV{A: o.AttrA, B: o.Attr}) })
 			}
 		}
 		if o.Asg != 0 {
@@ -246,7 +258,7 @@ func (e *env) run(caseNo int, ops []Op) (hx.M, error) {
 		if err != nil {
 			es = err.Error()
 		}
-		out = append(out, hx.M{"op": o.Op, "id": o.ID, "a": o.A, "b": o.B, "rule": o.Rule, "ca": o.CA, "attr": o.Attr, "asg": o.Asg, "k1": o.K1, "k2": o.K2, "u": o.U,
+		out = append(out, hx.M{"op": o.Op, "id": o.ID, "a": o.A, "b": o.B, "rule": o.Rule, "ca": o.CA, "attr": o.Attr, "attra": o.AttrA, "omit": o.Omit, "asg": o.Asg, "k1": o.K1, "k2": o.K2, "u": o.U,
 			"sess": nzI(o.Sess), "how": o.How, "forms": o.Forms,
 			"obs": hx.M{"table": t, "ctable": ct, "ret": hx.M{"id": ret.ID, "a": ret.A, "b": ret.B}, "err": es}})
 	}
@@ -314,12 +326,14 @@ func replay(args []string) error {
 		nsteps := 1
 		if last.Op == "foi" || last.Op == "foc" {
 			nsteps = 1
-			if last.Attr != 0 {
+			if last.Attr != 0 || last.AttrA != 0 {
 				nsteps++
 			}
 			if last.Asg != 0 {
 				nsteps++
 			}
+		} else if last.Op == "save" && last.Omit {
+			nsteps = 1
 		} else if last.Op == "save" || last.Op == "savec" {
 			nsteps = 0
 		}
@@ -382,6 +396,7 @@ func random(args []string) error {
 				}
 			case 0:
 				o.Op, o.ID, o.A, o.B = "save", int64(r.Intn(5)), int64(1+r.Intn(3)), int64(r.Intn(4))
+				o.Omit = r.Intn(3) == 0
 			case 1:
 				o.Op, o.ID, o.A, o.B = "upsert", int64(1+r.Intn(4)), int64(1+r.Intn(3)), int64(1+r.Intn(3))
 				o.Rule = []string{"nothing", "all", "ca", "cb", "cab"}[r.Intn(5)]
@@ -390,6 +405,9 @@ func random(args []string) error {
 				o.CA = int64(1 + r.Intn(4))
 				if r.Intn(2) == 0 {
 					o.Attr = int64(5 + r.Intn(2))
+				}
+				if r.Intn(3) == 0 {
+					o.AttrA = int64(1 + r.Intn(4))
 				}
 				if r.Intn(2) == 0 {
 					o.Asg = int64(7 + r.Intn(2))
